@@ -294,6 +294,164 @@ Proof.
 Qed.
 End WalkRoundtrip.
 
+(* ---------------- the grid walk (first piece up to the next unit boundary, then whole units) ---------------- *)
+Lemma lor_1023 x : Z.lor x 1023 = 1024 * (x / 1024) + 1023.
+Proof.
+  assert (H1 : Z.lor x 1023 = Z.lor (Z.ldiff x 1023) 1023).
+  { apply Z.bits_inj'. intros n Hn. rewrite !Z.lor_spec, Z.ldiff_spec.
+    destruct (Z.testbit x n), (Z.testbit 1023 n); reflexivity. }
+  assert (H2 : Z.land (Z.ldiff x 1023) 1023 = 0).
+  { apply Z.bits_inj'. intros n Hn. rewrite Z.land_spec, Z.ldiff_spec, Z.bits_0.
+    destruct (Z.testbit x n), (Z.testbit 1023 n); reflexivity. }
+  rewrite H1, <- (Z.lxor_lor _ _ H2), <- (Z.add_nocarry_lxor _ _ H2).
+  change 1023 with (Z.ones 10) at 1. rewrite Z.ldiff_ones_r by lia.
+  rewrite Z.shiftl_mul_pow2, Z.shiftr_div_pow2 by lia. change (2 ^ 10) with 1024. lia.
+Qed.
+
+Lemma neg_mod_cases base U : 0 < U ->
+  (base mod U = 0 /\ (- base) mod U = 0) \/ (base mod U <> 0 /\ (- base) mod U = U - base mod U).
+Proof.
+  intros HU. destruct (Z.eq_dec (base mod U) 0) as [E|E].
+  - left. split; [exact E|]. apply Z.mod_opp_l_z; [lia | exact E].
+  - right. split; [exact E|]. apply Z.mod_opp_l_nz; [lia | exact E].
+Qed.
+
+Lemma neg_mod_aligns base U : 0 < U -> (base + (- base) mod U) mod U = 0.
+Proof.
+  intros HU. destruct (neg_mod_cases base U HU) as [[E1 E2]|[E1 E2]]; rewrite E2.
+  - now rewrite Z.add_0_r.
+  - replace (base + (U - base mod U)) with ((base - base mod U) + 1 * U) by lia.
+    rewrite Z_mod_plus_full. rewrite Zminus_mod, Z.mod_mod, Z.sub_diag by lia. reflexivity.
+Qed.
+
+Lemma neg_mod_16 base kk : 0 < kk -> base mod 16 = 0 -> ((- base) mod (16 * kk)) mod 16 = 0.
+Proof.
+  intros Hk H16. rewrite (Z.mod_eq (- base) (16 * kk)) by lia.
+  apply Z.mod_divide; [lia|]. apply Z.divide_sub_r.
+  - apply Z.divide_opp_r. apply Z.mod_divide; [lia | exact H16].
+  - apply Z.divide_mul_l. apply Z.divide_mul_l. apply Z.divide_refl.
+Qed.
+
+Section GridRoundtrip.
+Variable g : Z -> list N -> res (list N).
+Variable hb : Z -> list N -> list N.            (* the hardware on one 16-byte fetch *)
+Variable unit k : nat.
+Hypothesis Hk : unit = (k * 16)%nat.
+Hypothesis Hk0 : (0 < k)%nat.
+Variable Q : Z -> Prop.
+Variable good : list N -> Prop.
+Hypothesis good_firstn : forall n l, good l -> good (firstn n l).
+Hypothesis good_skipn : forall n l, good l -> good (skipn n l).
+
+Definition ghu (a : Z) (c : list N) : list N := concat (pieces hb 16 a c).
+
+(* a piece that lies inside one unit of the grid *)
+Definition grid_piece (a : Z) (p c : list N) : Prop :=
+  (length p <= length c)%nat /\ a mod Z.of_nat unit + zlen c <= Z.of_nat unit /\
+  (Nat.modulo (length p) 16 = 0%nat -> length c = length p) /\
+  length (ghu a c) = length c /\ firstn (length p) (ghu a c) = p /\
+  (forall i, (i < length p)%nat -> Q (a + Z.of_nat i) -> nth i c 0%N = nth i p 0%N).
+
+Hypothesis g_ok : forall a p, 0 <= a -> a mod 16 = 0 -> p <> [] -> a mod Z.of_nat unit + zlen p <= Z.of_nat unit ->
+  good p -> exists c, g a p = Ok c /\ grid_piece a p c.
+
+Definition grid_whole (base : Z) (data out : list N) : Prop :=
+  (length data <= length out)%nat /\
+  firstn (length data) (concat (pieces hb 16 base out)) = data /\
+  (forall i, (i < length data)%nat -> Q (base + Z.of_nat i) -> nth i out 0%N = nth i data 0%N).
+
+Lemma grid_aligned b d : 0 <= b -> b mod Z.of_nat unit = 0 -> good d ->
+  exists out, seq_concat (pieces g unit b d) = Ok out /\ grid_whole b d out.
+Proof.
+  intros Hb Hal Hg.
+  assert (Hu : (0 < unit)%nat) by lia.
+  destruct (walk_roundtrip g ghu unit (fun a => 0 <= a /\ a mod Z.of_nat unit = 0) (b + zlen d) Q good
+              good_firstn good_skipn Hu) with (base := b) (data := d) as (out & Ho & R1 & R2 & R3);
+    try (split; assumption); try reflexivity; try assumption.
+  - intros a [A1 A2]. split; [lia|].
+    replace (a + Z.of_nat unit) with (a + 1 * Z.of_nat unit) by lia. rewrite Z_mod_plus_full. exact A2.
+  - intros a p [A1 A2] Hp Hl _ _ Hgp.
+    destruct (g_ok a p A1) as (c & Hc & G1 & G2 & G3 & G4 & G5 & G6); try assumption.
+    + rewrite Hk in A2. lia.
+    + rewrite A2. unfold zlen. lia.
+    + exists c. split; [exact Hc|]. unfold rt_piece. rewrite A2 in G2. unfold zlen in G2.
+      repeat split; try assumption; try lia.
+  - exists out. split; [exact Ho|]. split; [exact R1|]. split; [|exact R3].
+    rewrite (pieces_regroup hb 16 k (length out)) by lia. rewrite <- Hk. exact R2.
+Qed.
+
+Lemma grid_roundtrip base data : 0 <= base -> base mod 16 = 0 -> good data ->
+  exists out, seq_concat (grid_pieces g unit base data) = Ok out /\ grid_whole base data out.
+Proof.
+  intros Hb H16 Hg. unfold grid_pieces.
+  assert (HU : Z.of_nat unit = 16 * Z.of_nat k) by lia.
+  assert (HUp : 0 < Z.of_nat unit) by lia.
+  pose proof (Z.mod_pos_bound (- base) (Z.of_nat unit) HUp) as Hmb.
+  pose proof (zlen_nonneg data) as Hzd.
+  destruct (grid_first unit base data) as [|n] eqn:Ef.
+  - (* no first piece *)
+    cbn [app]. rewrite Z.add_0_r. change (skipn 0 data) with data.
+    unfold grid_first in Ef.
+    destruct (Z.eq_dec (zlen data) 0) as [Hz|Hz].
+    + assert (data = []) by (apply length_zero_iff_nil; unfold zlen in Hz; lia). subst data.
+      exists []. split; [reflexivity|]. repeat split; simpl; intros; lia.
+    + apply grid_aligned; try assumption.
+      assert (Hm0 : (- base) mod Z.of_nat unit = 0) by lia.
+      destruct (neg_mod_cases base (Z.of_nat unit) HUp) as [[E1 _]|[_ E2]]; [exact E1|].
+      pose proof (Z.mod_pos_bound base (Z.of_nat unit) HUp). lia.
+  - set (f := S n) in *. unfold grid_first in Ef.
+    assert (Hf1 : (f <= length data)%nat) by (unfold zlen in Ef; lia).
+    assert (Hf2 : Z.of_nat f <= (- base) mod Z.of_nat unit) by lia.
+    set (p0 := firstn f data). set (rest := skipn f data).
+    assert (Lp0 : length p0 = f) by (unfold p0; rewrite firstn_length; lia).
+    assert (Hp0 : p0 <> []) by (intros E0; rewrite E0 in Lp0; simpl in Lp0; lia).
+    assert (Hin : base mod Z.of_nat unit + zlen p0 <= Z.of_nat unit).
+    { unfold zlen. rewrite Lp0. destruct (neg_mod_cases base (Z.of_nat unit) HUp) as [[_ E2]|[_ E2]]; lia. }
+    destruct (g_ok base p0 Hb H16 Hp0 Hin (good_firstn f data Hg)) as (c0 & Hc0 & G1 & G2 & G3 & G4 & G5 & G6).
+    rewrite seq_concat_app. cbn [seq_concat]. rewrite Hc0, app_nil_r.
+    assert (Hdata : data = p0 ++ rest) by (unfold p0, rest; now rewrite firstn_skipn).
+    destruct (Nat.eq_dec (length rest) 0) as [Er|Er].
+    + (* the image ends inside the first unit *)
+      apply length_zero_iff_nil in Er. rewrite Er in *. rewrite pieces_nil. cbn [seq_concat]. rewrite app_nil_r in Hdata |- *. exists c0. split; [reflexivity|].
+      rewrite Hdata. repeat split; try assumption.
+    + (* whole units follow: the first piece ends on the grid and has a multiple of 16 bytes *)
+      assert (Hlr : (0 < length rest)%nat) by lia.
+      assert (Hrl : length rest = (length data - f)%nat) by (unfold rest; apply skipn_length).
+      assert (Hfe : Z.of_nat f = (- base) mod Z.of_nat unit) by (unfold zlen in Ef; lia).
+      assert (Hf16 : Nat.modulo f 16 = 0%nat).
+      { apply Nat2Z.inj. rewrite Nat2Z.inj_mod. rewrite Hfe, HU. change (Z.of_nat 16) with 16.
+        change (Z.of_nat 0) with 0. apply neg_mod_16; lia. }
+      assert (Lc0 : length c0 = f) by (rewrite <- Lp0; apply G3; now rewrite Lp0).
+      destruct (mod_mult_exists f 16 ltac:(lia) Hf16) as [q Hq].
+      destruct (grid_aligned (base + Z.of_nat f) rest) as (outr & Hor & R1 & R2 & R3).
+      { lia. } { rewrite Hfe. now apply neg_mod_aligns. } { unfold rest. now apply good_skipn. }
+      rewrite Hor. exists (c0 ++ outr). split; [reflexivity|].
+      rewrite Hdata. repeat split.
+      * rewrite !app_length. lia.
+      * rewrite (concat_pieces_app hb 16 q) by (try lia; rewrite Lc0; exact Hq).
+        fold (ghu base c0).
+        replace (zlen c0) with (Z.of_nat f) by (unfold zlen; now rewrite Lc0).
+        rewrite app_length, firstn_app, G4, Lc0, Lp0.
+        rewrite firstn_all2 by lia.
+        replace (f + length rest - f)%nat with (length rest) by lia.
+        rewrite R2. f_equal. rewrite <- G5. rewrite Lp0. symmetry. apply firstn_all2. lia.
+      * intros i Hi HQ. rewrite app_length in Hi.
+        destruct (Nat.lt_ge_cases i f) as [Hlt|Hge].
+        -- rewrite !app_nth1 by lia. apply G6; [lia | assumption].
+        -- rewrite !app_nth2 by lia. rewrite Lc0, Lp0. apply R3; [lia|].
+           replace (base + Z.of_nat f + Z.of_nat (i - f)) with (base + Z.of_nat i) by lia. exact HQ.
+Qed.
+End GridRoundtrip.
+
+(* address-only for the grid walk: cutting at a multiple of the unit behind a grid-aligned prefix *)
+Lemma grid_pieces_aligned {A} (f : Z -> list N -> A) unit base data :
+  (0 < unit)%nat -> base mod Z.of_nat unit = 0 -> grid_pieces f unit base data = pieces f unit base data.
+Proof.
+  intros Hu Hal. unfold grid_pieces, grid_first.
+  rewrite (Z.mod_opp_l_z base (Z.of_nat unit)) by (try assumption; lia).
+  pose proof (zlen_nonneg data). rewrite Z.min_r by lia. simpl. now rewrite Z.add_0_r.
+Qed.
+
 (* ================================================================== small facts ======================= *)
 Lemma pad16_cases l : (pad16 l = l /\ Nat.modulo (length l) 16 = 0%nat) \/
                       (exists k, (0 < k < 16)%nat /\ pad16 l = l ++ zeros k /\ Nat.modulo (length l + k) 16 = 0%nat).
@@ -363,7 +521,7 @@ Qed.
 
 Lemma ef_shift k : kb_wf k -> Z.shiftr (kb_end_with_flags k) 10 = (kb_end k - 1) / 1024.
 Proof.
-  intros W. rewrite (ef_nonzero k W). destruct W as (_ & _ & _ & _ & _ & _ & Hf).
+  intros W. rewrite (ef_nonzero k W). destruct W as (_ & _ & _ & _ & _ & Hf).
   rewrite !Z.shiftr_lor, Z.shiftr_land.
   change (Z.shiftr (Z.lnot 7) 10) with (-1). change (Z.shiftr 1016 10) with 0.
   rewrite Z.land_m1_r, Z.lor_0_r.
@@ -383,7 +541,7 @@ Qed.
 Lemma ef_range k : kb_wf k -> 0 <= kb_end_with_flags k < 4294967296.
 Proof.
   intros W. pose proof (ef_shift k W) as H. rewrite Z.shiftr_div_pow2 in H by lia. change (2 ^ 10) with 1024 in H.
-  destruct W as (_ & H0 & _ & H1 & H2 & _ & Hf). lia.
+  destruct W as (_ & H0 & _ & H1 & H2 & Hf). lia.
 Qed.
 
 Lemma oc_hit_blob k a : kb_wf k -> oc_hit (octx_of_blob k) a = Z.testbit (kb_flags k) 0 && kb_covers k a.
@@ -398,22 +556,20 @@ Proof. intros W. unfold oc_ade. cbn [octx_of_blob oc_w1]. apply ef_bit; [assumpt
 
 Lemma kb_is_encrypted_bits k : kb_wf k -> kb_is_encrypted k = Z.testbit (kb_flags k) 0 && Z.testbit (kb_flags k) 1.
 Proof.
-  intros (_ & _ & _ & _ & _ & _ & Hf). unfold kb_is_encrypted.
+  intros (_ & _ & _ & _ & _ & Hf). unfold kb_is_encrypted.
   destruct (flags_cases _ Hf) as [E|[E|[E|[E|[E|[E|[E|E]]]]]]]; rewrite E; reflexivity.
 Qed.
 
 Lemma kb_covers_unit k a a' : a' / 1024 = a / 1024 -> kb_covers k a' = kb_covers k a.
 Proof. intros H. unfold kb_covers. now rewrite H. Qed.
 
-(* SPSDK's test on a piece inside one 1 KiB unit agrees with the hardware's region test, except for the single byte
-   at an exclusive end address *)
+(* SPSDK's test on a piece inside one 1 KiB unit is the hardware's region test *)
 Lemma kb_matches_covers k a L :
-  kb_wf k -> 0 <= a -> a mod 1024 = 0 -> 1 <= L <= 1024 ->
-  ~ (kb_end k mod 1024 = 0 /\ a = kb_end k /\ L = 1) ->
+  kb_wf k -> 0 <= a -> 1 <= L -> a mod 1024 + L <= 1024 ->
   kb_matches k a (a + L - 1) = kb_covers k a.
 Proof.
-  intros (_ & H0 & H1 & H2 & H3 & H4 & _) Ha Hal HL Hx.
-  unfold kb_matches, kb_contains, kb_covers.
+  intros (_ & H0 & H1 & H2 & H3 & _) Ha HL Hin.
+  unfold kb_matches, kb_contains, kb_covers. rewrite lor_1023.
   apply eq_true_iff_eq. rewrite !andb_true_iff, !Z.leb_le. lia.
 Qed.
 
@@ -424,20 +580,16 @@ Proof.
   cbn [blob_fold]. rewrite (H k (or_introl eq_refl)). apply IH. intros k' Hk'. apply H. now right.
 Qed.
 
-Definition piece_not_f2 (blobs : list kblob) (a : Z) (L : Z) : Prop :=
-  forall k, In k blobs -> ~ (kb_end k mod 1024 = 0 /\ a = kb_end k /\ L = 1).
-
 Lemma otfad_piece_sel (E : cipher) blobs swap a p :
-  Forall kb_wf blobs -> blobs_disjoint blobs -> 0 <= a -> a mod 1024 = 0 -> p <> [] -> (length p <= 1024)%nat ->
-  piece_not_f2 blobs a (zlen p) ->
+  Forall kb_wf blobs -> blobs_disjoint blobs -> 0 <= a -> p <> [] -> a mod 1024 + zlen p <= 1024 ->
   otfad_piece E blobs swap a p =
   match find (fun k => kb_covers k a) blobs with
   | Some k => if kb_is_encrypted k then kb_encrypt_image E k a p swap a else Ok p
   | None => Ok p
   end.
 Proof.
-  intros W D Ha Hal Hp Hl Hx. unfold otfad_piece.
-  assert (HL : 1 <= zlen p <= 1024) by (unfold zlen; destruct p; [congruence | simpl length in *; lia]).
+  intros W D Ha Hp Hin. unfold otfad_piece.
+  assert (HL : 1 <= zlen p) by (unfold zlen; destruct p; [congruence | simpl length; lia]).
   assert (Gen : forall r, blob_fold (fun k => kb_matches k a (a + zlen p - 1) && kb_is_encrypted k)
                   (fun k => kb_encrypt_image E k a p swap a) (length p) blobs r =
                 match find (fun k => kb_covers k a) blobs with
@@ -449,16 +601,16 @@ Proof.
   { induction blobs as [|k l IH]; intros r; [reflexivity|].
     inversion W as [|? ? Wk Wl]; subst. inversion D as [|? ? Dk Dl]; subst.
     cbn [blob_fold find].
-    rewrite (kb_matches_covers k a (zlen p) Wk Ha Hal HL) by (apply Hx; now left).
+    rewrite (kb_matches_covers k a (zlen p) Wk Ha HL Hin).
     destruct (kb_covers k a) eqn:Ec.
     - assert (Hno : forall k', In k' l -> kb_matches k' a (a + zlen p - 1) && kb_is_encrypted k' = false).
       { intros k' Hk'. rewrite Forall_forall in Dk, Wl.
-        rewrite (kb_matches_covers k' a (zlen p) (Wl _ Hk') Ha Hal HL) by (apply Hx; now right).
+        rewrite (kb_matches_covers k' a (zlen p) (Wl _ Hk') Ha HL Hin).
         now rewrite (Dk k' Hk' a Ec). }
       cbn [andb]. destruct (kb_is_encrypted k).
       + destruct (kb_encrypt_image E k a p swap a); [|reflexivity]. now apply blob_fold_nomatch.
       + now apply blob_fold_nomatch.
-    - cbn [andb]. apply IH; try assumption. intros k' Hk'. apply Hx. now right. }
+    - cbn [andb]. now apply IH. }
   rewrite Gen. destruct (find (fun k => kb_covers k a) blobs) as [k|]; [|reflexivity].
   destruct (kb_is_encrypted k); [|reflexivity].
   destruct (kb_encrypt_image E k a p swap a); [|reflexivity].
@@ -548,14 +700,14 @@ Hypothesis Dj : blobs_disjoint blobs.
 Definition otfad_hu (a : Z) (c : list N) : list N :=
   concat (pieces (otfad_hw_block E (map octx_of_blob blobs) swap) 16 a c).
 
-Lemma otfad_hu_sel a c : 0 <= a -> a mod 1024 = 0 -> (length c <= 1024)%nat ->
+Lemma otfad_hu_sel a c : 0 <= a -> a mod 1024 + zlen c <= 1024 ->
   otfad_hu a c =
   match find (fun k => kb_covers k a) blobs with
   | Some k => if kb_is_encrypted k then concat (pieces (hwk E k swap) 16 a c) else c
   | None => c
   end.
 Proof.
-  intros Ha Hal Hl. unfold otfad_hu.
+  intros Ha Hin. unfold otfad_hu.
   assert (Hr : forall a' b, a <= a' < a + zlen c ->
             otfad_hw_block E (map octx_of_blob blobs) swap a' b =
             match find (fun k => kb_covers k a) blobs with
@@ -563,36 +715,43 @@ Proof.
             | None => b
             end).
   { intros a' b Hr. rewrite otfad_hw_block_sel by assumption.
-    rewrite (find_covers_unit blobs a a'); [reflexivity|]. unfold zlen in Hr. lia. }
+    rewrite (find_covers_unit blobs a a'); [reflexivity|]. lia. }
   rewrite (pieces_ext_range _ _ 16 a c Hr).
   destruct (find (fun k => kb_covers k a) blobs) as [k|].
   - destruct (kb_is_encrypted k); [reflexivity|]. apply concat_pieces_id. lia.
   - apply concat_pieces_id. lia.
 Qed.
 
-Lemma rt_piece_id a p : p <> [] -> (length p <= 1024)%nat -> otfad_hu a p = p ->
-  rt_piece otfad_hu 1024 (otfad_outside blobs) a p p.
-Proof. intros Hp Hl Hh. unfold rt_piece. rewrite Hh. repeat split; try lia; auto. apply firstn_all. Qed.
+Lemma grid_piece_id a p : p <> [] -> a mod 1024 + zlen p <= 1024 -> otfad_hu a p = p ->
+  grid_piece (otfad_hw_block E (map octx_of_blob blobs) swap) 1024 (otfad_outside blobs) a p p.
+Proof.
+  intros Hp Hin Hh. unfold grid_piece, ghu. fold (otfad_hu a p). rewrite Hh.
+  repeat split; try lia; auto. apply firstn_all.
+Qed.
 
 Lemma otfad_piece_ok a p :
-  0 <= a -> a mod 1024 = 0 -> p <> [] -> (length p <= 1024)%nat -> piece_not_f2 blobs a (zlen p) ->
-  exists c, otfad_piece E blobs swap a p = Ok c /\ rt_piece otfad_hu 1024 (otfad_outside blobs) a p c.
+  0 <= a -> a mod 16 = 0 -> p <> [] -> a mod 1024 + zlen p <= 1024 ->
+  exists c, otfad_piece E blobs swap a p = Ok c /\
+            grid_piece (otfad_hw_block E (map octx_of_blob blobs) swap) 1024 (otfad_outside blobs) a p c.
 Proof.
-  intros Ha Hal Hp Hl Hx.
-  rewrite (otfad_piece_sel E blobs swap a p W Dj Ha Hal Hp Hl Hx).
+  intros Ha H16 Hp Hin.
+  rewrite (otfad_piece_sel E blobs swap a p W Dj Ha Hp Hin).
   destruct (find (fun k => kb_covers k a) blobs) as [k|] eqn:Ef.
-  2:{ exists p. split; [reflexivity|]. apply rt_piece_id; try assumption.
+  2:{ exists p. split; [reflexivity|]. apply grid_piece_id; try assumption.
       rewrite otfad_hu_sel by assumption. now rewrite Ef. }
   destruct (kb_is_encrypted k) eqn:Ee.
-  2:{ exists p. split; [reflexivity|]. apply rt_piece_id; try assumption.
+  2:{ exists p. split; [reflexivity|]. apply grid_piece_id; try assumption.
       rewrite otfad_hu_sel by assumption. now rewrite Ef, Ee. }
-  destruct (find_some _ _ Ef) as [Hin Hcov].
-  pose proof (proj1 (Forall_forall _ _) W k Hin) as Wk.
-  destruct Wk as (Hc & H0 & H1 & H2 & H3 & H4 & H5).
+  destruct (find_some _ _ Ef) as [Hin' Hcov].
+  pose proof (proj1 (Forall_forall _ _) W k Hin') as Wk.
+  destruct Wk as (Hc & H0 & H1 & H2 & H3 & H5).
   set (d := pad16 p).
   assert (Hd1 : (length p <= length d)%nat) by apply pad16_length_ge.
-  assert (Hd2 : (length d <= 1024)%nat) by (apply pad16_le; [assumption | reflexivity]).
+  assert (Hd2 : (length d <= Z.to_nat (1024 - a mod 1024))%nat).
+  { apply pad16_le; [unfold zlen in Hin; lia|].
+    apply Nat2Z.inj. rewrite Nat2Z.inj_mod, Z2Nat.id by lia. change (Z.of_nat 16) with 16. change (Z.of_nat 0) with 0. lia. }
   assert (Hd3 : Nat.modulo (length d) 16 = 0%nat) by apply pad16_length_mod.
+  assert (Hd4 : a mod 1024 + zlen d <= 1024) by (unfold zlen; lia).
   destruct (mod_mult_exists _ 16 ltac:(lia) Hd3) as [q Hq].
   unfold kb_covers in Hcov. apply andb_true_iff in Hcov. destruct Hcov as [Hc1 Hc2].
   apply Z.leb_le in Hc1, Hc2.
@@ -602,45 +761,39 @@ Proof.
                  Ok (concat (pieces (kb_block (E (kb_key k)) (kb_nonce12 (kb_ctr k)) swap) 16 a d))).
   { unfold kb_encrypt_image. fold d.
     replace (a mod 16 =? 0) with true by (symmetry; apply Z.eqb_eq; lia).
-    rewrite Hc. cbn [Nat.eqb negb]. rewrite Ecv.
-    replace ((0 <? zlen d) && (a + zlen d >? M32)) with false; [reflexivity|].
-    symmetry. apply andb_false_iff. right. rewrite Z.gtb_ltb. apply Z.ltb_ge. unfold M32, zlen. lia. }
+    rewrite Hc. cbn [Nat.eqb negb]. rewrite Ecv. reflexivity. }
   rewrite Henc. eexists. split; [reflexivity|].
   destruct (pieces_inverse (kb_block (E (kb_key k)) (kb_nonce12 (kb_ctr k)) swap) (hwk E k swap) 16 q a d
               ltac:(lia) Hq) as [Inv Len].
   { intros j b Hj Hb. apply kb_block_inverse; [now apply E_len | assumption | lia | assumption]. }
   set (c := concat (pieces (kb_block (E (kb_key k)) (kb_nonce12 (kb_ctr k)) swap) 16 a d)) in *.
+  assert (Hzc : zlen c = zlen d) by (unfold zlen; now rewrite Len).
   assert (Hh : otfad_hu a c = d).
   { rewrite otfad_hu_sel by (try assumption; lia). rewrite Ef, Ee. exact Inv. }
-  unfold rt_piece. rewrite Hh, Len. repeat split; try lia.
+  unfold grid_piece, ghu. fold (otfad_hu a c). rewrite Hh, Len. repeat split; try lia.
+  - intros Hm. unfold d. destruct (pad16_cases p) as [[-> _]|(kk & Hkk & _ & Hmm)]; [reflexivity|].
+    exfalso. rewrite Nat.add_mod, Hm, Nat.add_0_l, Nat.mod_mod, Nat.mod_small in Hmm by lia. lia.
   - apply pad16_prefix.
   - intros i Hi HQ. exfalso.
     assert (Hcv : kb_covers k (a + Z.of_nat i) = true).
-    { rewrite (kb_covers_unit k a) by lia. unfold kb_covers. apply andb_true_iff. split; now apply Z.leb_le. }
-    rewrite (HQ k Hin Hcv) in Ee. discriminate.
+    { rewrite (kb_covers_unit k a) by (unfold zlen in Hin; lia). unfold kb_covers. apply andb_true_iff. split; now apply Z.leb_le. }
+    rewrite (HQ k Hin' Hcv) in Ee. discriminate.
 Qed.
 
-(* the whole image, 1 KiB-aligned base *)
-Lemma otfad_decrypts_aligned img base :
-  0 <= base -> base mod 1024 = 0 ->
-  (forall k, In k blobs -> kb_end k mod 1024 = 0 -> kb_end k <> base + zlen img - 1) ->
+(* the whole image, every 16-byte aligned base *)
+Lemma otfad_decrypts_l img base :
+  0 <= base -> base mod 16 = 0 ->
   exists out, otfad_encrypt_image E blobs img base swap = Ok out /\
               (length img <= length out)%nat /\
               firstn (length img) (otfad_hw E (map octx_of_blob blobs) swap base out) = img /\
-              (forall i, (i < length img)%nat -> (otfad_outside blobs) (base + Z.of_nat i) -> nth i out 0%N = nth i img 0%N).
+              (forall i, (i < length img)%nat -> otfad_outside blobs (base + Z.of_nat i) -> nth i out 0%N = nth i img 0%N).
 Proof.
-  intros Hb Hal Hx.
-  destruct (walk_roundtrip (otfad_piece E blobs swap) otfad_hu 1024 (fun a => 0 <= a /\ a mod 1024 = 0)
-              (base + zlen img) (otfad_outside blobs) (fun _ => True) ltac:(auto) ltac:(auto) ltac:(lia))
-    with (base := base) (data := img)
-    as (out & Ho & R1 & R2 & R3); try (split; assumption); try reflexivity; try exact I.
-  - intros a [A1 A2]. split; lia.
-  - intros a p [A1 A2] Hp Hl Htop Hlast _. apply otfad_piece_ok; try assumption.
-    intros k Hin (K1 & K2 & K3). apply (Hx k Hin K1). destruct Hlast as [Hlast|Hlast].
-    + unfold zlen in K3. lia.
-    + lia.
-  - exists out. unfold otfad_encrypt_image, U1K. split; [exact Ho|]. split; [exact R1|]. split; [|exact R3].
-    unfold otfad_hw. rewrite (pieces_regroup _ 16 64 (length out)) by lia. exact R2.
+  intros Hb H16.
+  destruct (grid_roundtrip (otfad_piece E blobs swap) (otfad_hw_block E (map octx_of_blob blobs) swap) 1024 64 eq_refl
+              ltac:(lia) (otfad_outside blobs) (fun _ => True) ltac:(auto) ltac:(auto)) with (base := base) (data := img)
+    as (out & Ho & R); try assumption; try exact I.
+  - intros a p A1 A2 Hp Hin _. now apply otfad_piece_ok.
+  - exists out. split; [exact Ho | exact R].
 Qed.
 End OtfadImage.
 
@@ -677,7 +830,7 @@ Lemma kb_plain_shape k : kb_codec_wf k ->
     kb_plain k = Ok (hdr ++ zf ++ le_enc 4 (crc CRC32_MPEG2 hdr) ++ zeros 24) /\ length hdr = 32%nat.
 Proof.
   intros (W & Lk & Wk & Wc & Hz & Hcf).
-  pose proof (ef_range k W) as He. destruct W as (Lc & H0 & H1 & H2 & H3 & H4 & H5).
+  pose proof (ef_range k W) as He. destruct W as (Lc & H0 & H1 & H2 & H3 & H5).
   assert (Lh : length (kb_key k ++ kb_ctr k ++ le32 (kb_start k) ++ le32 (kb_end_with_flags k)) = 32%nat)
     by (rewrite !app_length, !le32_length, Lk, Lc; reflexivity).
   assert (U : negb (u32_ok (kb_start k)) || negb (u32_ok (kb_end_with_flags k)) = false).
@@ -709,7 +862,7 @@ Proof.
   intros Wc Lkek Hcnt.
   destruct (kb_plain_shape k Wc) as (zf & Lz & Wz & Hp & Lh). cbv zeta in Hp, Lh.
   destruct Wc as (W & Lk & Wk & Wct & _ & _).
-  pose proof (ef_range k W) as He. pose proof W as (Lc & H0 & H1 & H2 & H3 & H4 & H5).
+  pose proof (ef_range k W) as He. pose proof W as (Lc & H0 & H1 & H2 & H3 & H5).
   set (hdr := kb_key k ++ kb_ctr k ++ le32 (kb_start k) ++ le32 (kb_end_with_flags k)) in *.
   set (crcb := le_enc 4 (crc CRC32_MPEG2 hdr)) in *.
   set (p40 := hdr ++ zf ++ crcb).
@@ -755,71 +908,28 @@ Proof.
 Qed.
 End OtfadKeyBlob.
 
-(* ================================================================== OTFAD: the two recorded findings ==== *)
-Definition wit_blob (s e : Z) : kblob :=
-  {| kb_key := le_enc 16 1; kb_ctr := le_enc 8 2; kb_start := s; kb_end := e; kb_flags := 3;
-     kb_zero := [0; 0; 0; 0]%N; kb_crcfill := [] |}.
-
-Lemma wit_blob_wf s e : 0 <= s -> s mod 1024 = 0 -> s < e -> e <= 4294967295 -> (e mod 1024 = 0 \/ e mod 1024 = 1023) ->
-  Forall kb_wf [wit_blob s e] /\ blobs_disjoint [wit_blob s e].
-Proof.
-  intros. split.
-  - constructor; [|constructor]. unfold kb_wf. cbn. repeat split; try assumption; lia.
-  - constructor; constructor.
-Qed.
-
-(* D25: base 16- but not 1 KiB-aligned, a blob boundary inside a piece: 0x1000..0x11FF stay plain, the hardware garbles them *)
-Lemma otfad_unaligned_base_witness :
-  let blobs := [wit_blob 4096 8191] in let img := repeat 0%N 1024 in let base := 3584 in
-  exists out, otfad_encrypt_image aes_c blobs img base false = Ok out /\
-              firstn (length img) (otfad_hw aes_c (map octx_of_blob blobs) false base out) <> img.
-Proof.
-  cbv zeta. eexists. split; [vm_compute; reflexivity|].
-  intros H. apply (f_equal (fun l => nth 512 l 0%N)) in H. vm_compute in H. discriminate.
-Qed.
-
-(* F2: end address given as a multiple of 1 KiB (exclusive) and the last image byte exactly at that address *)
-Lemma otfad_end_exclusive_witness :
-  let blobs := [wit_blob 4096 8192] in let img := repeat 0%N 1025 in let base := 7168 in
-  exists out, otfad_encrypt_image aes_c blobs img base false = Ok out /\
-              firstn (length img) (otfad_hw aes_c (map octx_of_blob blobs) false base out) <> img.
-Proof.
-  cbv zeta. eexists. split; [vm_compute; reflexivity|].
-  intros H. apply (f_equal (fun l => nth 1024 l 0%N)) in H. vm_compute in H. discriminate.
-Qed.
-
-Lemma otfad_decrypts_refuted_l :
-  (exists blobs img base swap,
-     Forall kb_wf blobs /\ blobs_disjoint blobs /\ 0 <= base /\ base mod 16 = 0 /\
-     (forall k, In k blobs -> kb_end k mod 1024 = 0 -> kb_end k <> base + zlen img - 1) /\
-     exists out, otfad_encrypt_image aes_c blobs img base swap = Ok out /\
-                 firstn (length img) (otfad_hw aes_c (map octx_of_blob blobs) swap base out) <> img) /\
-  (exists blobs img base swap,
-     Forall kb_wf blobs /\ blobs_disjoint blobs /\ 0 <= base /\ base mod 1024 = 0 /\
-     exists out, otfad_encrypt_image aes_c blobs img base swap = Ok out /\
-                 firstn (length img) (otfad_hw aes_c (map octx_of_blob blobs) swap base out) <> img).
-Proof.
-  split.
-  - exists [wit_blob 4096 8191], (repeat 0%N 1024), 3584, false.
-    destruct (wit_blob_wf 4096 8191 ltac:(lia) ltac:(reflexivity) ltac:(lia) ltac:(lia) ltac:(right; reflexivity)) as [W D].
-    repeat split; try assumption; try lia; try reflexivity.
-    + intros k [<-|[]] Hk. cbn in Hk. discriminate.
-    + exact otfad_unaligned_base_witness.
-  - exists [wit_blob 4096 8192], (repeat 0%N 1025), 7168, false.
-    destruct (wit_blob_wf 4096 8192 ltac:(lia) ltac:(reflexivity) ltac:(lia) ltac:(lia) ltac:(left; reflexivity)) as [W D].
-    repeat split; try assumption; try lia; try reflexivity.
-    exact otfad_end_exclusive_witness.
-Qed.
-
 (* ================================================================== "address only" instances ========== *)
+Lemma grid_address_only_l (g : Z -> list N -> res (list N)) unit q base x y :
+  (0 < unit)%nat -> base mod Z.of_nat unit = 0 -> length x = (q * unit)%nat ->
+  seq_concat (grid_pieces g unit base (x ++ y)) =
+  match seq_concat (grid_pieces g unit base x) with
+  | Ok cx => match seq_concat (grid_pieces g unit (base + zlen x) y) with Ok cy => Ok (cx ++ cy) | Err k => Err k end
+  | Err k => Err k
+  end.
+Proof.
+  intros Hu Hal Hx. rewrite !grid_pieces_aligned; try assumption.
+  - now apply (walk_address_only_l g unit q).
+  - unfold zlen. rewrite Hx, Nat2Z.inj_mul. rewrite Z_mod_plus_full. exact Hal.
+Qed.
+
 Lemma otfad_address_only_l (E : cipher) blobs swap base x y q :
-  length x = (q * 1024)%nat ->
+  base mod 1024 = 0 -> length x = (q * 1024)%nat ->
   otfad_encrypt_image E blobs (x ++ y) base swap =
   match otfad_encrypt_image E blobs x base swap with
   | Ok cx => match otfad_encrypt_image E blobs y (base + zlen x) swap with Ok cy => Ok (cx ++ cy) | Err k => Err k end
   | Err k => Err k
   end.
-Proof. intros H. unfold otfad_encrypt_image, U1K. apply (walk_address_only_l _ 1024 q); [lia | exact H]. Qed.
+Proof. intros Hb H. unfold otfad_encrypt_image, U1K. apply (grid_address_only_l _ 1024 q); [lia | exact Hb | exact H]. Qed.
 
 Lemma otfad_hw_block_outside (E : cipher) blobs swap a c :
   Forall kb_wf blobs -> blobs_disjoint blobs -> otfad_outside blobs a ->
@@ -845,6 +955,69 @@ Proof.
   - now apply ef_shift.
   - intros n Hn. now apply ef_bit.
 Qed.
+
+(* ================================================================== integer codecs =================== *)
+Local Open Scope N_scope.
+Lemma le_dec_app a b : le_dec (a ++ b) = le_dec a + 2 ^ (8 * N.of_nat (length a)) * le_dec b.
+Proof.
+  induction a as [|x a IH]; [cbn [app le_dec length N.of_nat]; rewrite N.mul_0_r; change (2 ^ 0) with 1; lia|].
+  cbn [app le_dec length]. rewrite IH.
+  replace (8 * N.of_nat (S (length a))) with (8 + 8 * N.of_nat (length a)) by lia.
+  rewrite N.pow_add_r. change (2 ^ 8) with 256. lia.
+Qed.
+
+Lemma le_enc_add_high w a b : le_enc w (a + 2 ^ (8 * N.of_nat w) * b) = le_enc w a.
+Proof.
+  revert a b. induction w as [|w IH]; intros a b; [reflexivity|].
+  cbn [le_enc].
+  replace (8 * N.of_nat (S w)) with (8 + 8 * N.of_nat w) by lia.
+  rewrite N.pow_add_r. change (2 ^ 8) with 256.
+  replace (a + 256 * 2 ^ (8 * N.of_nat w) * b) with (a + (2 ^ (8 * N.of_nat w) * b) * 256) by lia.
+  rewrite N.mod_add by lia. rewrite N.div_add by lia. now rewrite IH.
+Qed.
+
+Lemma le_enc_app w1 w2 n : le_enc (w1 + w2) n = le_enc w1 n ++ le_enc w2 (n / 2 ^ (8 * N.of_nat w1)).
+Proof.
+  revert n. induction w1 as [|w1 IH]; intros n.
+  - simpl. now rewrite N.div_1_r.
+  - cbn [plus le_enc app]. rewrite IH. f_equal. f_equal.
+    replace (8 * N.of_nat (S w1)) with (8 + 8 * N.of_nat w1) by lia.
+    rewrite N.pow_add_r. change (2 ^ 8) with 256. now rewrite N.div_div by (try apply N.pow_nonzero; lia).
+Qed.
+
+(* the 128-bit big-endian increment of `cryptography` only touches the low word while it does not wrap *)
+Lemma inc_be_low x m : length x = 12%nat -> wf_bytes x -> m + 1 < 4294967296 ->
+  inc_be (x ++ be_enc 4 m) = x ++ be_enc 4 (m + 1).
+Proof.
+  intros Lx Wx Hm. unfold inc_be. rewrite app_length, be_enc_length, Lx.
+  change (12 + 4)%nat with (4 + 12)%nat.
+  unfold be_enc at 1, be_dec. rewrite rev_app_distr. unfold be_enc at 1. rewrite rev_involutive.
+  rewrite le_dec_app, le_enc_length.
+  rewrite le_dec_enc_small by (change (2 ^ (8 * N.of_nat 4)) with 4294967296; lia).
+  change (2 ^ (8 * N.of_nat 4)) with 4294967296.
+  rewrite le_enc_app. rewrite rev_app_distr.
+  change (2 ^ (8 * N.of_nat 4)) with 4294967296.
+  replace (m + 4294967296 * le_dec (rev x) + 1) with ((m + 1) + 4294967296 * le_dec (rev x)) by lia.
+  f_equal.
+  - replace ((m + 1 + 4294967296 * le_dec (rev x)) / 4294967296) with (le_dec (rev x)).
+    + change (le_dec (rev x)) with (be_dec x). change (rev (le_enc 12 (be_dec x))) with (be_enc 12 (be_dec x)).
+      rewrite <- Lx. now apply be_enc_dec.
+    + rewrite N.mul_comm, N.div_add by lia. rewrite N.div_small by lia. reflexivity.
+  - change 4294967296 with (2 ^ (8 * N.of_nat 4)). rewrite le_enc_add_high. reflexivity.
+Qed.
+Local Close Scope N_scope.
+
+Lemma be32_mod x : 0 <= x -> be32 (x mod M32) = be32 x.
+Proof.
+  intros Hx. unfold be32, be_enc. f_equal.
+  rewrite (Z.div_mod x M32) at 2 by (unfold M32; lia).
+  assert (H1 : 0 <= x mod M32) by (apply Z.mod_pos_bound; unfold M32; lia).
+  assert (H2 : 0 <= x / M32) by (apply Z.div_pos; unfold M32; lia).
+  replace (Z.to_N (M32 * (x / M32) + x mod M32)) with (Z.to_N (x mod M32) + 2 ^ (8 * N.of_nat 4) * Z.to_N (x / M32))%N.
+  - now rewrite le_enc_add_high.
+  - change (2 ^ (8 * N.of_nat 4))%N with 4294967296%N. unfold M32 in *. lia.
+Qed.
+
 
 (* ================================================================== IEE =============================== *)
 Lemma blob_fold_sel {B} (M C : B -> bool) (enc : B -> res (list N)) L (blobs : list B) r :
@@ -922,8 +1095,6 @@ Variable blobs : list iblob.
 Hypothesis W : Forall ib_wf blobs.
 Hypothesis Dj : iblobs_disjoint blobs.
 Hypothesis CO : Forall (ib_cipher_ok E D) blobs.
-Variable top : Z.
-Hypothesis NO : Forall (fun b => ib_no_ctr_overflow b top) blobs.
 
 Definition iee_hu := iee_hw_unit E D (map ictx_of_blob blobs).
 
@@ -981,6 +1152,7 @@ Proof.
   assert (Hokt : okb (E (word_rev (ib_key2 b)) (le_enc 16 (Z.to_N (a / 4096))))) by (apply E2, le_enc16_okb).
   unfold ib_encrypt_image.
   replace (a mod 16 =? 0) with true by (symmetry; apply Z.eqb_eq; lia). cbn [negb]. fold d.
+  assert (Hbp : (ib_mode b =? MODE_BYPASS) = false) by (rewrite Hm; reflexivity). rewrite Hbp.
   assert (Hctr : mode_is_ctr (ib_mode b) = false) by (rewrite Hm; reflexivity). rewrite Hctr.
   unfold ib_encrypt_xts. rewrite !reverse_bytes_in_longs_word_rev by assumption.
   rewrite pieces_single by (unfold U4K; try assumption; lia). cbn [concat]. rewrite app_nil_r, Htw.
@@ -990,27 +1162,21 @@ Proof.
     cbn [ictx_of_blob ic_mode ic_key1 ic_key2]. rewrite Hm, Z.eqb_refl.
     apply (xts_dec_enc_l (E (word_rev (ib_key1 b))) (D (word_rev (ib_key1 b))) DE E1); assumption.
 Qed.
-(* AES-CTR with address binding *)
+(* AES-CTR with address binding; the 32-bit counter word wraps on both sides *)
 Lemma iee_ctr_piece b a p :
   In b blobs -> ib_mode b = MODE_CTR_ADDR -> 0 <= a -> a mod 4096 = 0 -> ib_covers b a = true ->
-  p <> [] -> (length p <= 4096)%nat -> a + zlen p <= top ->
+  p <> [] -> (length p <= 4096)%nat ->
   exists c, ib_encrypt_image E b a p = Ok c /\ length c = length (pad16 p) /\
             iee_hw_unit E D [ictx_of_blob b] a c = pad16 p.
 Proof.
-  intros Hin Hm Ha Hal Hcov Hp Hl Htop.
-  rewrite Forall_forall in W, CO, NO. pose proof (W b Hin) as (H0 & H1 & H2 & H3 & H4 & K1 & K2 & Hmode).
-  destruct Hmode as [Hx|[_ L2]]; [rewrite Hx in Hm; discriminate|].
+  intros Hin Hm Ha Hal Hcov Hp Hl.
+  rewrite Forall_forall in W, CO. pose proof (W b Hin) as (H0 & H1 & H2 & H3 & H4 & K1 & K2 & Hmode).
+  destruct Hmode as [Hx|[[_ L2]|Hx]]; [rewrite Hx in Hm; discriminate| |rewrite Hx in Hm; discriminate].
   pose proof (CO b Hin) as Elen. unfold ib_cipher_ok in Elen. rewrite Hm in Elen.
-  change (MODE_CTR_ADDR =? MODE_XTS) with false in Elen.
-  pose proof (NO b Hin Hm) as Hno.
+  change (MODE_CTR_ADDR =? MODE_XTS) with false in Elen. rewrite Z.eqb_refl in Elen.
   set (d := pad16 p).
-  assert (Hd0 : d <> []) by now apply pad16_nonnil.
-  assert (Hd1 : (length p <= length d)%nat) by apply pad16_length_ge.
-  assert (Hd2 : (length d <= 4096)%nat) by (apply pad16_le; [assumption | reflexivity]).
   assert (Hd3 : Nat.modulo (length d) 16 = 0%nat) by apply pad16_length_mod.
   destruct (mod_mult_exists _ 16 ltac:(lia) Hd3) as [q Hq].
-  assert (Hd5 : (length d < length p + 16)%nat).
-  { unfold d. destruct (pad16_cases p) as [[-> _]|(k & Hk & -> & _)]; [lia|]. rewrite app_length, zeros_length. lia. }
   set (nonce := word_rev (ib_key2 b)).
   assert (Ln : length nonce = 16%nat).
   { unfold nonce. pose proof (reverse_bytes_in_longs_word_rev _ K2) as Hr.
@@ -1021,19 +1187,12 @@ Proof.
   unfold ib_covers in Hcov. apply andb_true_iff in Hcov. destruct Hcov as [Hc1 Hc2].
   apply Z.leb_le in Hc1. apply Z.ltb_lt in Hc2.
   assert (Hsh : Z.shiftr a 4 = a / 16) by (rewrite Z.shiftr_div_pow2 by lia; reflexivity).
-  assert (Hbound : n0 + a / 16 + Z.of_nat q <= 4294967296).
-  { fold nonce in Hno. fold n0 in Hno. unfold zlen in Htop. 
-    assert (a + Z.of_nat (length d) <= Z.min (top + 15) (ib_end b)) by lia.
-    assert ((a + Z.of_nat (length d)) / 16 <= Z.min (top + 15) (ib_end b) / 16) by (apply Z.div_le_mono; lia).
-    replace ((a + Z.of_nat (length d)) / 16) with (a / 16 + Z.of_nat q) in H5 by lia. lia. }
   unfold ib_encrypt_image.
   replace (a mod 16 =? 0) with true by (symmetry; apply Z.eqb_eq; lia). cbn [negb]. fold d.
+  assert (Hbp : (ib_mode b =? MODE_BYPASS) = false) by (rewrite Hm; reflexivity). rewrite Hbp.
   assert (Hctr : mode_is_ctr (ib_mode b) = true) by (rewrite Hm; reflexivity). rewrite Hctr.
   unfold ib_encrypt_ctr. rewrite !reverse_bytes_in_longs_word_rev by assumption. fold nonce.
   rewrite Ln. cbn [Nat.eqb negb]. fold n0. rewrite Hsh.
-  replace ((zlen d + 15) / 16) with (Z.of_nat q) by (unfold zlen; lia).
-  replace ((0 <? Z.of_nat q) && (n0 + a / 16 + Z.of_nat q - 1 >=? M32)) with false.
-  2:{ symmetry. apply andb_false_iff. right. rewrite Z.geb_leb. apply Z.leb_gt. unfold M32. lia. }
   set (key := word_rev (ib_key1 b)) in *.
   replace (16 * (n0 + a / 16)) with (a + 16 * n0) by lia.
   rewrite pieces_shift.
@@ -1043,8 +1202,8 @@ Proof.
               16 q a d ltac:(lia) Hq) as [Inv Len].
   { intros j blk Hj Hb. unfold ib_ctr_block.
     replace ((a + Z.of_nat (j * 16) + 16 * n0) / 16) with (n0 + a / 16 + Z.of_nat j) by lia.
-    replace ((n0 + (a + Z.of_nat (j * 16)) / 16) mod M32) with (n0 + a / 16 + Z.of_nat j)
-      by (unfold M32; rewrite Z.mod_small; lia).
+    replace (n0 + (a + Z.of_nat (j * 16)) / 16) with (n0 + a / 16 + Z.of_nat j) by lia.
+    rewrite be32_mod by lia.
     assert (Lks : length (E key (firstn 12 nonce ++ be32 (n0 + a / 16 + Z.of_nat j))) = 16%nat).
     { apply Elen. rewrite app_length, firstn_length, be32_length, Ln. reflexivity. }
     split; [rewrite xor_bytes_length_min, Hb, Lks; reflexivity|].
@@ -1062,79 +1221,62 @@ Lemma iee_rt_id a p : p <> [] -> (length p <= 4096)%nat -> iee_hu a p = p ->
 Proof. intros Hp Hl Hh. unfold rt_piece. rewrite Hh. repeat split; try lia; auto. apply firstn_all. Qed.
 
 Lemma iee_piece_ok a p :
-  0 <= a -> a mod 4096 = 0 -> p <> [] -> (length p <= 4096)%nat -> wf_bytes p -> a + zlen p <= top ->
+  0 <= a -> a mod 4096 = 0 -> p <> [] -> (length p <= 4096)%nat -> wf_bytes p ->
   exists c, iee_piece E blobs a p = Ok c /\ rt_piece iee_hu 4096 (iee_outside blobs) a p c.
 Proof.
-  intros Ha Hal Hp Hl Wp Htop.
+  intros Ha Hal Hp Hl Wp.
   rewrite iee_piece_sel by assumption.
   destruct (find (fun b => ib_covers b a) blobs) as [b|] eqn:Ef.
   2:{ exists p. split; [reflexivity|]. apply iee_rt_id; try assumption. rewrite iee_hu_sel. now rewrite Ef. }
   destruct (find_some _ _ Ef) as [Hin Hcov].
-  assert (Hcase : exists c, ib_encrypt_image E b a p = Ok c /\ length c = length (pad16 p) /\
-                            iee_hw_unit E D [ictx_of_blob b] a c = pad16 p).
-  { pose proof (proj1 (Forall_forall _ _) W b Hin) as (_ & _ & _ & _ & _ & _ & _ & Hmode).
-    destruct Hmode as [Hm|[Hm _]]; [now apply iee_xts_piece | now apply iee_ctr_piece]. }
-  destruct Hcase as (c & Hc & Lc & Hh). exists c. split; [exact Hc|].
-  assert (Hhu : iee_hu a c = pad16 p) by (rewrite iee_hu_sel, Ef; exact Hh).
-  pose proof (pad16_length_ge p) as Hpg. pose proof (pad16_le p 4096 Hl eq_refl) as Hpl.
-  unfold rt_piece. rewrite Hhu, Lc. repeat split; try lia.
-  - apply pad16_prefix.
-  - intros i Hi HQ. exfalso.
-    assert (Hcv : ib_covers b (a + Z.of_nat i) = true).
-    { pose proof (proj1 (Forall_forall _ _) W b Hin) as (H0 & H1 & H2 & H3 & H4 & _).
-      unfold ib_covers in *. apply andb_true_iff in Hcov. destruct Hcov as [C1 C2].
-      apply Z.leb_le in C1. apply Z.ltb_lt in C2. apply andb_true_iff. split; [apply Z.leb_le | apply Z.ltb_lt]; lia. }
-    rewrite (HQ b Hin) in Hcv. discriminate.
+  pose proof (proj1 (Forall_forall _ _) W b Hin) as (_ & _ & _ & _ & _ & _ & _ & Hmode).
+  destruct Hmode as [Hm|[[Hm _]|Hm]].
+  3:{ (* Bypass: SPSDK leaves the piece as it is and so does the hardware *)
+      assert (Hb : ib_encrypt_image E b a p = Ok p).
+      { unfold ib_encrypt_image. replace (a mod 16 =? 0) with true by (symmetry; apply Z.eqb_eq; lia).
+        cbn [negb]. now rewrite Hm, Z.eqb_refl. }
+      exists p. split; [exact Hb|]. apply iee_rt_id; try assumption.
+      rewrite iee_hu_sel, Ef. unfold iee_hw_unit, ic_hit, ictx_of_blob. cbn [find ic_start ic_end ic_mode].
+      change ((ib_start b <=? a) && (a <? ib_end b)) with (ib_covers b a). rewrite Hcov, Hm. reflexivity. }
+  all: assert (Hcase : exists c, ib_encrypt_image E b a p = Ok c /\ length c = length (pad16 p) /\
+                            iee_hw_unit E D [ictx_of_blob b] a c = pad16 p)
+         by (first [now apply iee_xts_piece | now apply iee_ctr_piece]).
+  all: destruct Hcase as (c & Hc & Lc & Hh); exists c; (split; [exact Hc|]).
+  all: assert (Hhu : iee_hu a c = pad16 p) by (rewrite iee_hu_sel, Ef; exact Hh).
+  all: pose proof (pad16_length_ge p) as Hpg; pose proof (pad16_le p 4096 Hl eq_refl) as Hpl.
+  all: unfold rt_piece; rewrite Hhu, Lc; repeat split; try lia; try apply pad16_prefix.
+  all: intros i Hi HQ; exfalso.
+  all: assert (Hcv : ib_covers b (a + Z.of_nat i) = true)
+         by (pose proof (proj1 (Forall_forall _ _) W b Hin) as (H0 & H1 & H2 & H3 & H4 & _);
+             unfold ib_covers in *; apply andb_true_iff in Hcov; destruct Hcov as [C1 C2];
+             apply Z.leb_le in C1; apply Z.ltb_lt in C2; apply andb_true_iff;
+             split; [apply Z.leb_le | apply Z.ltb_lt]; lia).
+  all: rewrite (HQ b Hin) in Hcv; discriminate.
 Qed.
 End IeeImage.
 
 (* the whole image at a 4 KiB-aligned address *)
 Lemma iee_decrypts_aligned (E D : cipher) blobs img base :
   Forall ib_wf blobs -> iblobs_disjoint blobs -> Forall (ib_cipher_ok E D) blobs ->
-  Forall (fun b => ib_no_ctr_overflow b (base + zlen img)) blobs ->
   wf_bytes img -> 0 <= base -> base mod 4096 = 0 ->
   exists out, iee_encrypt_image E blobs img base = Ok out /\
               (length img <= length out)%nat /\
               firstn (length img) (iee_hw E D (map ictx_of_blob blobs) base out) = img /\
               (forall i, (i < length img)%nat -> iee_outside blobs (base + Z.of_nat i) -> nth i out 0%N = nth i img 0%N).
 Proof.
-  intros W Dj CO NO Wi Hb Hal.
+  intros W Dj CO Wi Hb Hal.
   destruct (walk_roundtrip (iee_piece E blobs) (iee_hu E D blobs) 4096 (fun a => 0 <= a /\ a mod 4096 = 0)
               (base + zlen img) (iee_outside blobs) wf_bytes wf_bytes_firstn wf_bytes_skipn ltac:(lia))
     with (base := base) (data := img)
     as (out & Ho & R1 & R2 & R3); try (split; assumption); try reflexivity; try assumption.
   - intros a [A1 A2]. split; lia.
-  - intros a p [A1 A2] Hp Hl Htop Hlast Wp. now apply (iee_piece_ok E D blobs W Dj CO (base + zlen img) NO).
+  - intros a p [A1 A2] Hp Hl Htop Hlast Wp. now apply (iee_piece_ok E D blobs W Dj CO).
   - exists out. unfold iee_encrypt_image, iee_hw, U4K. repeat split; assumption.
 Qed.
 
-(* ---------------- IEE: the two recorded findings ---------------- *)
 Definition iee_wit (mode : Z) (key2 : list N) : iblob :=
   {| ib_lock := 89; ib_keyattr := 90; ib_mode := mode; ib_start := 4096; ib_end := 8192;
      ib_key1 := le_enc 16 1; ib_key2 := key2; ib_po := 0 |}.
-
-(* Bypass mode: SPSDK encrypts (with AES-XTS) a region that the hardware passes through unchanged *)
-Lemma iee_bypass_refuted_l :
-  exists b img base, ib_mode b = MODE_BYPASS /\ base mod 4096 = 0 /\ ib_covers b base = true /\
-    exists out, iee_encrypt_image aes_c [b] img base = Ok out /\
-                iee_hw aes_c aes_d [ictx_of_blob b] base out = out /\ firstn (length img) out <> img.
-Proof.
-  exists (iee_wit MODE_BYPASS (le_enc 16 2)), (repeat 0%N 16), 4096.
-  split; [reflexivity|]. split; [reflexivity|]. split; [reflexivity|].
-  eexists. split; [vm_compute; reflexivity|]. split; [vm_compute; reflexivity|].
-  intros H. vm_compute in H. discriminate.
-Qed.
-
-(* AES-CTR: an initial counter word near 2^32 makes Counter.value raise OverflowError although the 32-bit hardware
-   counter simply wraps *)
-Lemma iee_ctr_total_refuted_l :
-  exists b img base, ib_wf b /\ ib_mode b = MODE_CTR_ADDR /\ base mod 4096 = 0 /\
-    iee_encrypt_image aes_c [b] img base = Err 2.
-Proof.
-  exists (iee_wit MODE_CTR_ADDR (repeat 255%N 16)), (repeat 0%N 16), 4096.
-  split; [|split; [reflexivity|split; [reflexivity|vm_compute; reflexivity]]].
-  unfold ib_wf, iee_wit. cbn. repeat split; lia.
-Qed.
 
 Lemma iee_address_only_l (E : cipher) blobs base x y q :
   length x = (q * 4096)%nat ->
@@ -1147,55 +1289,6 @@ Proof. intros H. unfold iee_encrypt_image, U4K. apply (walk_address_only_l _ 409
 
 
 (* ================================================================== BEE =============================== *)
-Local Open Scope N_scope.
-Lemma le_dec_app a b : le_dec (a ++ b) = le_dec a + 2 ^ (8 * N.of_nat (length a)) * le_dec b.
-Proof.
-  induction a as [|x a IH]; [cbn [app le_dec length N.of_nat]; rewrite N.mul_0_r; change (2 ^ 0) with 1; lia|].
-  cbn [app le_dec length]. rewrite IH.
-  replace (8 * N.of_nat (S (length a))) with (8 + 8 * N.of_nat (length a)) by lia.
-  rewrite N.pow_add_r. change (2 ^ 8) with 256. lia.
-Qed.
-
-Lemma le_enc_add_high w a b : le_enc w (a + 2 ^ (8 * N.of_nat w) * b) = le_enc w a.
-Proof.
-  revert a b. induction w as [|w IH]; intros a b; [reflexivity|].
-  cbn [le_enc].
-  replace (8 * N.of_nat (S w)) with (8 + 8 * N.of_nat w) by lia.
-  rewrite N.pow_add_r. change (2 ^ 8) with 256.
-  replace (a + 256 * 2 ^ (8 * N.of_nat w) * b) with (a + (2 ^ (8 * N.of_nat w) * b) * 256) by lia.
-  rewrite N.mod_add by lia. rewrite N.div_add by lia. now rewrite IH.
-Qed.
-
-Lemma le_enc_app w1 w2 n : le_enc (w1 + w2) n = le_enc w1 n ++ le_enc w2 (n / 2 ^ (8 * N.of_nat w1)).
-Proof.
-  revert n. induction w1 as [|w1 IH]; intros n.
-  - simpl. now rewrite N.div_1_r.
-  - cbn [plus le_enc app]. rewrite IH. f_equal. f_equal.
-    replace (8 * N.of_nat (S w1)) with (8 + 8 * N.of_nat w1) by lia.
-    rewrite N.pow_add_r. change (2 ^ 8) with 256. now rewrite N.div_div by (try apply N.pow_nonzero; lia).
-Qed.
-
-(* the 128-bit big-endian increment of `cryptography` only touches the low word while it does not wrap *)
-Lemma inc_be_low x m : length x = 12%nat -> wf_bytes x -> m + 1 < 4294967296 ->
-  inc_be (x ++ be_enc 4 m) = x ++ be_enc 4 (m + 1).
-Proof.
-  intros Lx Wx Hm. unfold inc_be. rewrite app_length, be_enc_length, Lx.
-  change (12 + 4)%nat with (4 + 12)%nat.
-  unfold be_enc at 1, be_dec. rewrite rev_app_distr. unfold be_enc at 1. rewrite rev_involutive.
-  rewrite le_dec_app, le_enc_length.
-  rewrite le_dec_enc_small by (change (2 ^ (8 * N.of_nat 4)) with 4294967296; lia).
-  change (2 ^ (8 * N.of_nat 4)) with 4294967296.
-  rewrite le_enc_app. rewrite rev_app_distr.
-  change (2 ^ (8 * N.of_nat 4)) with 4294967296.
-  replace (m + 4294967296 * le_dec (rev x) + 1) with ((m + 1) + 4294967296 * le_dec (rev x)) by lia.
-  f_equal.
-  - replace ((m + 1 + 4294967296 * le_dec (rev x)) / 4294967296) with (le_dec (rev x)).
-    + change (le_dec (rev x)) with (be_dec x). change (rev (le_enc 12 (be_dec x))) with (be_enc 12 (be_dec x)).
-      rewrite <- Lx. now apply be_enc_dec.
-    + rewrite N.mul_comm, N.div_add by lia. rewrite N.div_small by lia. reflexivity.
-  - change 4294967296 with (2 ^ (8 * N.of_nat 4)). rewrite le_enc_add_high. reflexivity.
-Qed.
-Local Close Scope N_scope.
 
 Lemma ctr_xcrypt_nil F c : ctr_xcrypt F c [] = [].
 Proof. reflexivity. Qed.
@@ -1297,12 +1390,12 @@ Proof.
 Qed.
 
 Lemma bee_block_covered (E : cipher) h a data :
-  bh_wf h -> bh_covers h a = true -> 0 <= a -> a mod 1024 = 0 -> (length data <= 1024)%nat ->
+  bh_wf h -> bh_covers h a = true -> 0 <= a -> a mod 1024 + zlen data <= 1024 ->
   bee_encrypt_block E h a data =
   Ok (ctr_xcrypt (E (bh_swkey h)) (firstn 12 (bh_counter h) ++ be32 (a / 16)) (pad16_rnd data)).
 Proof.
-  intros (Hm & Lk & Lc & Wc & Hz & Wf) Hc Ha Hal Hl. unfold bee_encrypt_block.
-  replace (Nat.ltb 1024 (length data)) with false by (symmetry; apply Nat.ltb_ge; assumption).
+  intros (Hm & Lk & Lc & Wc & Hz & Wf) Hc Ha Hunit. unfold bee_encrypt_block.
+  replace (Nat.ltb 1024 (length data)) with false by (symmetry; apply Nat.ltb_ge; unfold zlen in Hunit; lia).
   unfold bh_covers in Hc. destruct (find_existsb _ _ Hc) as [f Hf].
   destruct (find_some _ _ Hf) as [Hin Hcov].
   rewrite Forall_forall in Wf. pose proof (Wf f Hin) as (F0 & F1 & F2 & F3 & F4).
@@ -1317,11 +1410,9 @@ Proof.
   change (fun f0 : fac => (fc_start f0 <=? a) && (a <? fc_start f0 + fc_len f0)) with (fun f0 => fac_covers f0 a) in *.
   unfold fac_covers, fc_end in Hf |- *. rewrite Hf.
   replace (a + zlen data >? fc_start f + fc_len f) with false
-    by (symmetry; rewrite Z.gtb_ltb; apply Z.ltb_ge; unfold zlen; lia).
+    by (symmetry; rewrite Z.gtb_ltb; apply Z.ltb_ge; unfold zlen in *; lia).
   rewrite Lc, Hz. cbn [Nat.eqb negb].
   change (Z.of_N (be_dec [0%N; 0%N; 0%N; 0%N])) with 0. rewrite Z.shiftr_div_pow2 by lia. change (2 ^ 4) with 16.
-  replace (u32_ok (0 + a / 16)) with true
-    by (symmetry; unfold u32_ok; apply andb_true_iff; split; [apply Z.leb_le | apply Z.ltb_lt]; lia).
   reflexivity.
 Qed.
 
@@ -1373,11 +1464,12 @@ Proof.
   - apply IH; assumption.
 Qed.
 
-Lemma bee_piece_sel a blk : 0 <= a -> a mod 1024 = 0 -> (length blk <= 1024)%nat ->
+Lemma bee_piece_sel a blk : 0 <= a -> a mod 1024 + zlen blk <= 1024 ->
   bee_piece E ohs a blk =
   Ok (match find (fun h => bh_covers h a) (bee_actives ohs) with Some h => bee_enc1 h a blk | None => blk end).
 Proof.
-  intros Ha Hal Hl. pose proof (bheaders_disjoint_at _ a Dj) as Dja. clear Dj.
+  intros Ha Hin. assert (Hl : (length blk <= 1024)%nat) by (unfold zlen in Hin; lia).
+  pose proof (bheaders_disjoint_at _ a Dj) as Dja. clear Dj.
   induction ohs as [|o l IH]; [reflexivity|].
   destruct o as [h|]; cbn [bee_piece].
   - unfold bee_actives in *. cbn [map concat app find] in *.
@@ -1425,38 +1517,43 @@ Proof.
   rewrite (bh_covers_unit h a a' Hh H). destruct (bh_covers h a); [reflexivity | exact IH].
 Qed.
 
-Lemma bee_hu_sel a c : 0 <= a -> a mod 1024 = 0 -> (length c <= 1024)%nat ->
+Lemma bee_hu_sel a c : 0 <= a -> a mod 1024 + zlen c <= 1024 ->
   bee_hu a c =
   match find (fun h => bh_covers h a) (bee_actives ohs) with
   | Some h => concat (pieces (bee_dec1 h) 16 a c)
   | None => c
   end.
 Proof.
-  intros Ha Hal Hl. unfold bee_hu.
+  intros Ha Hin. unfold bee_hu.
   assert (Hr : forall a' b, a <= a' < a + zlen c ->
             bee_hw_block E (map bctx_of (bee_actives ohs)) a' b =
             match find (fun h => bh_covers h a) (bee_actives ohs) with Some h => bee_dec1 h a' b | None => b end).
   { intros a' b Hr. rewrite bee_hw_block_sel by assumption.
-    rewrite (find_bh_covers_unit _ a a'); [reflexivity | assumption|]. unfold zlen in Hr. lia. }
+    rewrite (find_bh_covers_unit _ a a'); [reflexivity | assumption|]. lia. }
   rewrite (pieces_ext_range _ _ 16 a c Hr).
   destruct (find (fun h => bh_covers h a) (bee_actives ohs)); [reflexivity|]. apply concat_pieces_id. lia.
 Qed.
 
-Lemma bee_piece_ok a p : 0 <= a -> a mod 1024 = 0 -> p <> [] -> (length p <= 1024)%nat ->
-  exists c, bee_piece E ohs a p = Ok c /\ rt_piece bee_hu 1024 (bee_outside (bee_actives ohs)) a p c.
+Lemma bee_piece_ok a p : 0 <= a -> a mod 16 = 0 -> p <> [] -> a mod 1024 + zlen p <= 1024 ->
+  exists c, bee_piece E ohs a p = Ok c /\
+            grid_piece (bee_hw_block E (map bctx_of (bee_actives ohs))) 1024 (bee_outside (bee_actives ohs)) a p c.
 Proof.
-  intros Ha Hal Hp Hl. rewrite bee_piece_sel by assumption. eexists. split; [reflexivity|].
+  intros Ha H16 Hp Hin. rewrite bee_piece_sel by assumption. eexists. split; [reflexivity|].
   destruct (find (fun h => bh_covers h a) (bee_actives ohs)) as [h|] eqn:Ef.
-  2:{ unfold rt_piece. rewrite bee_hu_sel by assumption. rewrite Ef. repeat split; try lia; auto. apply firstn_all. }
-  destruct (find_some _ _ Ef) as [Hin Hcov].
-  pose proof (proj1 (Forall_forall _ _) W h Hin) as Wh. pose proof Wh as (Hm & Lk & Lc & Wc & Hz & Wf).
+  2:{ unfold grid_piece, ghu. fold (bee_hu a p). rewrite bee_hu_sel by assumption. rewrite Ef.
+      repeat split; try lia; auto. apply firstn_all. }
+  destruct (find_some _ _ Ef) as [Hin' Hcov].
+  pose proof (proj1 (Forall_forall _ _) W h Hin') as Wh. pose proof Wh as (Hm & Lk & Lc & Wc & Hz & Wf).
   set (d := pad16_rnd p).
   assert (Hd1 : (length p <= length d)%nat) by apply pad16_rnd_length_ge.
-  assert (Hd2 : (length d <= 1024)%nat) by (apply pad16_rnd_le; [assumption | reflexivity]).
+  assert (Hd2 : (length d <= Z.to_nat (1024 - a mod 1024))%nat).
+  { apply pad16_rnd_le; [unfold zlen in Hin; lia|].
+    apply Nat2Z.inj. rewrite Nat2Z.inj_mod, Z2Nat.id by lia. change (Z.of_nat 16) with 16. change (Z.of_nat 0) with 0. lia. }
   assert (Hd3 : Nat.modulo (length d) 16 = 0%nat) by apply pad16_rnd_length_mod.
+  assert (Hd4 : a mod 1024 + zlen d <= 1024) by (unfold zlen; lia).
   destruct (mod_mult_exists _ 16 ltac:(lia) Hd3) as [q Hq].
   (* a < 2^32 because it lies in a FAC region *)
-  assert (Ha32 : a < 4294967295 - 1023).
+  assert (Ha32 : a < 4294967295).
   { unfold bh_covers in Hcov. apply existsb_exists in Hcov. destruct Hcov as (f & Hf & Hc).
     rewrite Forall_forall in Wf. pose proof (Wf f Hf) as (F0 & F1 & F2 & F3 & F4).
     unfold fac_covers, fc_end in *. apply andb_true_iff in Hc. destruct Hc as [C1 C2].
@@ -1466,7 +1563,7 @@ Proof.
   assert (W12 : wf_bytes n12) by (unfold n12; now apply wf_bytes_firstn).
   assert (Henc : bee_enc1 h a p =
                  concat (pieces (fun x blk => xor_bytes blk (E (bh_swkey h) (n12 ++ be32 (x / 16)))) 16 a d)).
-  { unfold bee_enc1. fold n12. fold d. rewrite (ctr_xcrypt_pieces _ n12 q); try assumption; try lia.
+  { unfold bee_enc1. fold n12. fold d. rewrite (ctr_xcrypt_pieces _ n12 q); try assumption; try (unfold zlen in Hd4; lia).
     replace (16 * (a / 16)) with a by lia. reflexivity. }
   rewrite Henc.
   destruct (pieces_inverse (fun x blk => xor_bytes blk (E (bh_swkey h) (n12 ++ be32 (x / 16)))) (bee_dec1 h) 16 q a d
@@ -1474,40 +1571,42 @@ Proof.
   { intros j blk Hj Hb. unfold bee_dec1. fold n12. rewrite Hz.
     change (Z.of_N (be_dec [0%N; 0%N; 0%N; 0%N])) with 0.
     replace ((0 + (a + Z.of_nat (j * 16)) / 16) mod M32) with ((a + Z.of_nat (j * 16)) / 16)
-      by (unfold M32; rewrite Z.mod_small; lia).
+      by (unfold M32; rewrite Z.mod_small; unfold zlen in Hd4; lia).
     assert (Lks : length (E (bh_swkey h) (n12 ++ be32 ((a + Z.of_nat (j * 16)) / 16))) = 16%nat).
     { apply E_len; [assumption|]. rewrite app_length, L12, be32_length. reflexivity. }
     split; [rewrite xor_bytes_length_min, Hb, Lks; reflexivity|].
     apply xor_bytes_cancel. rewrite Hb, Lks. auto. }
   set (c := concat (pieces (fun x blk => xor_bytes blk (E (bh_swkey h) (n12 ++ be32 (x / 16)))) 16 a d)) in *.
-  assert (Hh : bee_hu a c = d) by (rewrite bee_hu_sel by (try assumption; lia); rewrite Ef; exact Inv).
-  unfold rt_piece. rewrite Hh, Len. repeat split; try lia.
+  assert (Hh : bee_hu a c = d).
+  { rewrite bee_hu_sel by (try assumption; unfold zlen in *; lia). rewrite Ef. exact Inv. }
+  unfold grid_piece, ghu. fold (bee_hu a c). rewrite Hh, Len. repeat split; try (unfold zlen in *; lia).
+  - intros Hmo. unfold d. destruct (pad16_rnd_cases p) as [[-> _]|(kk & Hkk & _ & Hmm)]; [reflexivity|].
+    exfalso. rewrite Nat.add_mod, Hmo, Nat.add_0_l, Nat.mod_mod, Nat.mod_small in Hmm by lia. lia.
   - apply pad16_rnd_prefix.
   - intros i Hi HQ. exfalso.
-    assert (Hcv : bh_covers h (a + Z.of_nat i) = true) by (rewrite (bh_covers_unit h a) by (try assumption; lia); exact Hcov).
-    rewrite (HQ h Hin) in Hcv. discriminate.
+    assert (Hcv : bh_covers h (a + Z.of_nat i) = true)
+      by (rewrite (bh_covers_unit h a) by (try assumption; unfold zlen in Hin; lia); exact Hcov).
+    rewrite (HQ h Hin') in Hcv. discriminate.
 Qed.
 
-Lemma bee_decrypts_aligned img base : 0 <= base -> base mod 1024 = 0 ->
+(* the whole image, every 16-byte aligned base *)
+Lemma bee_decrypts_l img base : 0 <= base -> base mod 16 = 0 ->
   exists out, bee_export_image E ohs img base = Ok out /\
               (length img <= length out)%nat /\
               firstn (length img) (bee_hw E (map bctx_of (bee_actives ohs)) base out) = img /\
               (forall i, (i < length img)%nat -> bee_outside (bee_actives ohs) (base + Z.of_nat i) ->
                          nth i out 0%N = nth i img 0%N).
 Proof.
-  intros Hb Hal.
-  destruct (walk_roundtrip (bee_piece E ohs) bee_hu 1024 (fun a => 0 <= a /\ a mod 1024 = 0)
-              (base + zlen img) (bee_outside (bee_actives ohs)) (fun _ => True) ltac:(auto) ltac:(auto) ltac:(lia))
-    with (base := base) (data := img)
-    as (out & Ho & R1 & R2 & R3); try (split; assumption); try reflexivity; try exact I.
-  - intros a [A1 A2]. split; lia.
-  - intros a p [A1 A2] Hp Hl _ _ _. now apply bee_piece_ok.
-  - exists out. unfold bee_export_image, U1K. split; [exact Ho|]. split; [exact R1|]. split; [|exact R3].
-    unfold bee_hw. rewrite (pieces_regroup _ 16 64 (length out)) by lia. exact R2.
+  intros Hb H16.
+  destruct (grid_roundtrip (bee_piece E ohs) (bee_hw_block E (map bctx_of (bee_actives ohs))) 1024 64 eq_refl
+              ltac:(lia) (bee_outside (bee_actives ohs)) (fun _ => True) ltac:(auto) ltac:(auto))
+    with (base := base) (data := img) as (out & Ho & R); try assumption; try exact I.
+  - intros a p A1 A2 Hp Hin _. now apply bee_piece_ok.
+  - exists out. split; [exact Ho | exact R].
 Qed.
 End BeeImage.
 
-(* ---------------- BEE: the recorded finding (same shape as OTFAD D25) ---------------- *)
+(* ---------------- BEE: the premises are satisfiable ---------------- *)
 Definition bee_wit : bhdr :=
   {| bh_counter := le_enc 12 7 ++ [0; 0; 0; 0]%N; bh_mode := 1; bh_lock := 0;
      bh_facs := [{| fc_start := 4096; fc_len := 4096; fc_level := 0 |}];
@@ -1522,30 +1621,14 @@ Proof.
   - constructor; constructor.
 Qed.
 
-(* base 16- but not 1 KiB-aligned: a piece that starts outside the FAC region and ends inside stays plain (the hardware
-   garbles its tail); a piece that starts inside and ends outside is refused with an SPSDKError *)
-Lemma bee_decrypts_refuted_l :
-  exists ohs, Forall bh_wf (bee_actives ohs) /\ bheaders_disjoint (bee_actives ohs) /\
-    (exists img base, 0 <= base /\ base mod 16 = 0 /\
-       exists out, bee_export_image aes_c ohs img base = Ok out /\
-                   firstn (length img) (bee_hw aes_c (map bctx_of (bee_actives ohs)) base out) <> img) /\
-    (exists img base, 0 <= base /\ base mod 16 = 0 /\ bee_export_image aes_c ohs img base = Err 1).
-Proof.
-  exists [Some bee_wit]. destruct bee_wit_wf as [W D]. split; [exact W|]. split; [exact D|]. split.
-  - exists (repeat 0%N 1024), 3584. split; [lia|]. split; [reflexivity|].
-    eexists. split; [vm_compute; reflexivity|].
-    intros H. apply (f_equal (fun l => nth 512 l 0%N)) in H. vm_compute in H. discriminate.
-  - exists (repeat 0%N 1024), 7680. split; [lia|]. split; [reflexivity|]. vm_compute. reflexivity.
-Qed.
-
 Lemma bee_address_only_l (E : cipher) ohs base x y q :
-  length x = (q * 1024)%nat ->
+  base mod 1024 = 0 -> length x = (q * 1024)%nat ->
   bee_export_image E ohs (x ++ y) base =
   match bee_export_image E ohs x base with
   | Ok cx => match bee_export_image E ohs y (base + zlen x) with Ok cy => Ok (cx ++ cy) | Err k => Err k end
   | Err k => Err k
   end.
-Proof. intros H. unfold bee_export_image, U1K. apply (walk_address_only_l _ 1024 q); [lia | exact H]. Qed.
+Proof. intros Hb H. unfold bee_export_image, U1K. apply (grid_address_only_l _ 1024 q); [lia | exact Hb | exact H]. Qed.
 
 (* ================================================================== BEE / IEE key material: crypto layer ==== *)
 Lemma zeros_wf k : wf_bytes (zeros k).
@@ -1751,16 +1834,16 @@ Lemma ib_cipher_ok_aes b :
 Proof.
   intros K1 W1 K2 W2. unfold ib_cipher_ok.
   destruct (aes_cipher_laws _ K1 W1) as (DE & EO & EL). destruct (aes_cipher_laws _ K2 W2) as (_ & EO2 & _).
-  destruct (ib_mode b =? MODE_XTS); [split; [exact DE | split; [exact EO | exact EO2]] | exact EL].
+  destruct (ib_mode b =? MODE_XTS); [split; [exact DE | split; [exact EO | exact EO2]] |].
+  destruct (ib_mode b =? MODE_CTR_ADDR); [exact EL | exact I].
 Qed.
 
 Example ib_premises_instance :
-  let b := iee_wit MODE_XTS (le_enc 16 2) in ib_wf b /\ ib_cipher_ok aes_c aes_d b /\ ib_no_ctr_overflow b 8192.
+  let b := iee_wit MODE_XTS (le_enc 16 2) in ib_wf b /\ ib_cipher_ok aes_c aes_d b.
 Proof.
-  cbv zeta. split; [|split].
+  cbv zeta. split.
   - unfold ib_wf, iee_wit. cbn. repeat split; lia.
   - apply ib_cipher_ok_aes; try reflexivity; unfold wf_bytes, wf_byte; cbn; repeat constructor.
-  - intros H. discriminate.
 Qed.
 
 (* (T1) the constants used by the hand model are the ones found in the source on this run *)
